@@ -203,6 +203,9 @@ func zzLeakInvariant(s *kube.Store) func() {
 }
 
 // zzStep is the scripted behaviour of one pipeline step.
+// zzExtraKind is the kind of the extra resources steps ask for.
+var zzExtraKind = "Extra"
+
 type zzStep struct {
 	desired []bool // which candidate resource names are in the desired state it returns
 	ready   []fnv1.Ready
@@ -354,7 +357,7 @@ func (r *zzRunner) RunFunction(_ context.Context, name string, req *fnv1.RunFunc
 				key = st.reqKeys[k]
 			}
 		}
-		sel := &fnv1.ResourceSelector{ApiVersion: "example.org/v1", Kind: "Extra", Match: &fnv1.ResourceSelector_MatchName{MatchName: n}}
+		sel := &fnv1.ResourceSelector{ApiVersion: "example.org/v1", Kind: zzExtraKind, Match: &fnv1.ResourceSelector_MatchName{MatchName: n}}
 		if st.reqByLabel {
 			sel.Match = &fnv1.ResourceSelector_MatchLabels{MatchLabels: &fnv1.MatchLabels{Labels: map[string]string{"round": n}}}
 		}
